@@ -26,8 +26,12 @@ func runC11(x *mc.X) {
 	eIdx := x.Choose("elapsed", 3)
 	proto := mc.Pick(x, "origin.protocol", []string{"", "HTTP/2.0", "HTTP/1.0"})
 
+	primed := x.Choose("after-an-unrelated-exchange", 2) == 1
 	w := world.New(world.Opt{})
 	defer w.Close()
+	if primed {
+		primeUnrelated(x, w)
+	}
 	ccv, reqCC, method, rng := "max-age=100", "", "GET", ""
 	elapsedMenu := []int64{0, 10, 50}
 	follow := "200"
